@@ -137,3 +137,36 @@ func typeString(n ast.Node) string {
 	}
 	return strings.Replace(fmt.Sprintf("%T", n), "*ast.", "", 1)
 }
+
+// VerifCursor is one observation of the restorer's cursor machine, taken at the end of
+// applySpace / applyDecorations and at the start and end of RestoreFile.
+type VerifCursor struct {
+	Ev       string   `json:"ev"`   // begin, space, decs, end
+	Name     string   `json:"name"` // Before / After, or the decoration point
+	Space    int      `json:"space"`
+	End      bool     `json:"end"`
+	Bad      bool     `json:"bad"`  // applySpace on a Bad node
+	File     bool     `json:"file"` // applyDecorations on the File node
+	Decs     []string `json:"decs"`
+	Cursor   int      `json:"cursor"`
+	AtNL     int      `json:"atnl"`
+	Lines    int      `json:"lines"`
+	LastLine int      `json:"lastline"`
+	Base     int      `json:"base"`
+	Size     int      `json:"size"`
+}
+
+func (r *FileRestorer) verifCursor(ev, name string, space int, end, bad, file bool, decs []string) {
+	if VerifHook == nil {
+		return
+	}
+	o := VerifCursor{Ev: ev, Name: name, Space: space, End: end, Bad: bad, File: file, Decs: append([]string{}, decs...),
+		Cursor: int(r.cursor), AtNL: int(r.cursorAtNewLine), Lines: len(r.lines), Base: r.base}
+	if len(r.lines) > 0 {
+		o.LastLine = r.lines[len(r.lines)-1]
+	}
+	if ev == "end" {
+		o.Size = r.fileSize()
+	}
+	VerifHook("cursor", o)
+}
